@@ -215,6 +215,37 @@ func (e *SpecEnv) lookupConst(pkgName, name string) *Val {
 	return nil
 }
 
+// lookupGlobal resolves a package-level variable to the constant it is read as (globals are assumed never
+// reassigned after package initialisation).
+func (e *SpecEnv) lookupGlobal(pkgName, name string) *Val {
+	var pkg *types.Package
+	if pkgName == "" {
+		pkg = e.pkg
+	} else {
+		for _, p := range e.fr.u.P.ByPath {
+			if p.Types != nil && p.Types.Name() == pkgName {
+				pkg = p.Types
+				break
+			}
+		}
+	}
+	if pkg == nil {
+		return nil
+	}
+	v, ok := pkg.Scope().Lookup(name).(*types.Var)
+	if !ok {
+		return nil
+	}
+	u := e.fr.u
+	n := "gval_" + mangle(pkg.Name()+"_"+name)
+	u.S.declare(n, u.S.sortOf(v.Type()))
+	if types.Identical(v.Type(), types.Universe.Lookup("error").Type()) && strings.HasPrefix(name, "E") {
+		u.assertOnce("(> " + n + " 0)")
+		u.errGlobals = appendUnique(u.errGlobals, n)
+	}
+	return &Val{T: v.Type(), S: n}
+}
+
 func (e *SpecEnv) boolean(x ast.Expr) string {
 	v := e.eval(x)
 	return v.S
@@ -245,6 +276,9 @@ func (e *SpecEnv) eval(x ast.Expr) *Val {
 			return v
 		}
 		if v := e.lookupConst("", x.Name); v != nil {
+			return v
+		}
+		if v := e.lookupGlobal("", x.Name); v != nil {
 			return v
 		}
 		return e.fail("unknown identifier %q", x.Name)
@@ -289,6 +323,9 @@ func (e *SpecEnv) eval(x ast.Expr) *Val {
 			if _, isVar := e.vars[id.Name]; !isVar {
 				if e.resolve == nil || e.resolve(id.Name) == nil {
 					if v := e.lookupConst(id.Name, x.Sel.Name); v != nil {
+						return v
+					}
+					if v := e.lookupGlobal(id.Name, x.Sel.Name); v != nil {
 						return v
 					}
 				}
@@ -537,6 +574,18 @@ func (e *SpecEnv) call(x *ast.CallExpr) *Val {
 			return n.eval(x.Args[0])
 		}
 		return e.fail("prev() is only available at loopback sites")
+	case "argOf":
+		// argOf(Callee, n, i): the i-th argument of the n-th call of Callee in this function
+		if len(x.Args) == 3 && e.fr.callArgVals != nil {
+			key := exprText(x.Args[0]) + "#" + exprText2(x.Args[1])
+			var i int
+			fmt.Sscanf(exprText2(x.Args[2]), "%d", &i)
+			if avs, ok := e.fr.callArgVals[key]; ok && i < len(avs) {
+				return avs[i]
+			}
+		}
+		// no such call (yet): an unconstrained value — combine with dominatedBy() to demand that the call exists
+		return &Val{T: mathInt, S: e.fr.u.S.fresh("noarg", "Int"), Math: true}
 	case "dominatedBy":
 		if e.siteDominated != nil && len(x.Args) == 2 {
 			var n int
@@ -578,7 +627,8 @@ func (e *SpecEnv) call(x *ast.CallExpr) *Val {
 				return rv
 			}
 		}
-		return e.fail("res(): no such call %s", exprText(x.Args[0]))
+		// no such call on this path / in this function: an unconstrained value (use dominatedBy() to demand the call)
+		return &Val{T: mathInt, S: e.fr.u.S.fresh("nores", "Int"), Math: true}
 	case "int", "int64", "uint64", "int32", "uint32", "uint8", "uint16", "int16", "int8", "uint", "mathint":
 		v := arg(0)
 		return &Val{T: mathInt, S: v.S, Math: true}
